@@ -64,6 +64,16 @@ def c_use(tr):
 
 def to_ops(events, rq_json):
     """-> (coq term of type list (op * list obs), number of operations, histogram of op kinds)"""
+    out, kinds, hist = _build(events, rq_json)
+    return _l(out), len(out), hist
+
+
+def op_kinds(events, rq_json):
+    """the kind of every operation of the trace, in order (to name the operation a replay stops at)"""
+    return _build(events, rq_json)[1]
+
+
+def _build(events, rq_json):
     extern_names = {}
     for t in rq_json.get("tables", []):
         k = t["relation"]["kind"]
@@ -72,12 +82,14 @@ def to_ops(events, rq_json):
     ev = [(e.get("op"), e.get("d") or {}) for e in events]
     n = len(ev)
     out = []
+    kinds = []
     hist = {}
     depth = 0       # open frames
     i = 0
 
     def emit(kind, op, obs):
         out.append("(%s, %s)" % (op, _l(obs)))
+        kinds.append(kind)
         hist[kind] = hist.get(kind, 0) + 1
 
     def need(j, *kinds):
@@ -196,7 +208,7 @@ def to_ops(events, rq_json):
             raise TraceError("event %d: unexpected %s" % (i, k))
     if depth != 0:
         raise TraceError("trace ends with %d open relation(s)" % depth)
-    return _l(out), len(out), hist
+    return out, kinds, hist
 
 
 def perturbations(events, rng):
@@ -239,5 +251,5 @@ def perturbations(events, rng):
     return out
 
 
-COQ_HEADER = ("From Coq Require Import List NArith Bool.\nFrom PV Require Import Lib.ListX Model.Rq Model.RqWf Model.Lowerer Model.RqEq Model.LowererTrace.\n"
+COQ_HEADER = ("From Coq Require Import List NArith Bool.\nFrom PV Require Import Lib.ListX Model.Rq Model.RqWf Model.Lowerer Model.RqEq Model.LowererTrace Model.LowererVis.\n"
               "Import ListNotations.\nLocal Open Scope N_scope.\n")
